@@ -91,6 +91,15 @@ def _recdef(f, k):
     return Frag([f"r{k} = {{.a = 1; .b = {f.expr}}}"], [f"r{k}.b"])
 
 
+def _recfn(f, k):
+    # a record field that is itself a subroutine definition (function kind): `{.h z: Int = E}`
+    return Frag([f"rf{k} = {{.a = 1; .h z{k}: Int = {f.expr}}}"], [f"rf{k}.h(1)"])
+
+
+def _recproc(f, k):
+    return Frag([f"rp{k} = {{.a = 1; .h! z{k}: Int = {f.expr}}}"], [f"rp{k}.h!(1)"])
+
+
 def _attrrecv(f, k):
     return Frag([], [f"({f.expr}).real"])
 
@@ -249,6 +258,8 @@ CTORS = [
     Ctor("method", _method, False, kind="func"),
     Ctor("method!", _pmethod, False, kind="proc", group="ext"),
     Ctor("match", _match, False, kind="func"),
+    Ctor("recfn", _recfn, True, kind="func", group="ext"),
+    Ctor("recproc", _recproc, True, kind="proc", group="ext"),
 ]
 BY_NAME = {c.name: c for c in CTORS}
 
